@@ -301,6 +301,35 @@ PowX(a, kb) ==
   ELSE IF a = Neg(One) THEN (IF IsEvenB(kb) THEN One ELSE Neg(One))
   ELSE Pow(a, ToInt(kb))                   \* |a| >= 2: the exponent is a TLC integer
 
+(* Powers of a one-limb base (2 <= b <= 9999) by repeated multiplication with
+   the largest b^j <= 9999: linear in the length of the result per step, so
+   2^5000 (377 limbs) or 3^5000 are multiplied out in a fraction of a second
+   (BigInt!Pow squares by schoolbook multiplication with recursive operators,
+   which TLC evaluates in time quadratic in the recursion depth).  Lib.tla,
+   PowLaws, proves PowSmallMag = Pow. *)
+MulSmallF(m, d) ==                       \* m * d, d in 1..9999: one chain carrying (limbs so far, carry)
+  LET n == Len(m)
+      f[i \in 0..n] == IF i = 0 THEN [s |-> << >>, c |-> 0]
+                       ELSE LET p == f[i - 1]  t == m[i] * d + p.c
+                            IN [s |-> Append(p.s, t % Base), c |-> t \div Base]
+      z == f[n]
+  IN IF z.c = 0 THEN z.s ELSE Append(z.s, z.c)
+RECURSIVE NatPow(_, _)
+NatPow(b, j) == IF j = 0 THEN 1 ELSE b * NatPow(b, j - 1)
+RECURSIVE MaxJAt(_, _)
+MaxJAt(b, j) == IF NatPow(b, j + 1) > 9999 THEN j ELSE MaxJAt(b, j + 1)
+MaxJ(b) == MaxJAt(b, 1)                                           \* the largest j with b^j <= 9999
+PowSmallMag(b, k) ==                                              \* the magnitude of b^k, 2 <= b <= 9999
+  LET j == MaxJ(b)  d == NatPow(b, j)  q == k \div j
+      \* (p ranges over a singleton: a bound variable holds a value, see ModMag)
+      g[i \in 0..q] == IF i = 0 THEN <<NatPow(b, k % j)>>
+                       ELSE CHOOSE v \in {MulSmallF(p, d) : p \in {g[i - 1]}} : TRUE
+  IN g[q]
+\* an estimate (from above) of the limb steps PowSmallMag(b, k) takes: multiplications * mean length
+RECURSIVE BitsN(_)
+BitsN(b) == IF b = 0 THEN 0 ELSE 1 + BitsN(b \div 2)
+PowCost(b, k) == ((k \div MaxJ(b)) + 1) * (((BitsN(b) * k) \div 27) + 1)
+
 (* Powers too long to be multiplied out by TLC within the time of a check
    (2^65536 has 4 932 limbs) are validated through NECESSARY conditions that
    are linear in the length of the result:
@@ -309,11 +338,23 @@ PowX(a, kb) ==
      - the sign, and the bracket of its length,
      - powers of ten exactly (zero limbs below one limb 1, 10, 100 or 1000). *)
 PowModuli == <<9973, 9967, 9949, 9941, 9931, 9929, 9923, 9907, 9901, 9887, 9883, 9871>>   \* primes
-\* m mod d for a magnitude, d in 1..9999 (t < 10^8: inside TLC's 32 bits)
-RECURSIVE ModMagAt(_, _, _, _)
-ModMagAt(m, d, i, r) == IF i = 0 THEN r ELSE ModMagAt(m, d, i - 1, (r * Base + m[i]) % d)
+\* m mod d for a magnitude, d in 1..9999 (r * Base + limb < 10^8: inside TLC's 32 bits).  Horner from the most
+\* significant limb, as recursive FUNCTIONS over blocks of 1000 limbs: the evaluation of a recursive operator
+\* with an accumulator is quadratic in its depth in TLC, that of a recursive function is linear, and the
+\* blocks bound the depth of the Java stack (2^65536 has 4 932 limbs, (2^64)^4100 has 19 748)
+ModBlock(m, d, r0, hi, lo) ==          \* fold the limbs hi, hi-1 .. lo into r0
+  LET f[i \in 0..(hi - lo + 1)] == IF i = 0 THEN r0 ELSE (f[i - 1] * Base + m[hi + 1 - i]) % d
+  IN f[hi - lo + 1]
+ModMag(m, d) ==
+  LET n == Len(m)  nb == (n + 999) \div 1000
+      \* (r0 ranges over the singleton {g[j - 1]}: a bound variable holds a VALUE, an operator argument would
+      \* be evaluated lazily at the bottom of the next block and the depths would add up)
+      g[j \in 0..nb] == IF j = 0 THEN 0
+                        ELSE LET hi == n - (j - 1) * 1000
+                             IN CHOOSE v \in {ModBlock(m, d, r0, hi, MaxI(hi - 999, 1)) : r0 \in {g[j - 1]}} : TRUE
+  IN g[nb]
 \* the residue of a BigInt in 0..d-1 (floored)
-ModSmall(x, d) == LET r == ModMagAt(x.mag, d, Len(x.mag), 0)
+ModSmall(x, d) == LET r == ModMag(x.mag, d)
                   IN IF x.sg >= 0 \/ r = 0 THEN r ELSE d - r
 \* b^k mod d in native arithmetic, b in 0..d-1, d <= 9999, k a TLC integer >= 0
 RECURSIVE PowModN(_, _, _)
